@@ -1,6 +1,7 @@
 """C20: Position order, Range/Location equality, reprs.  icontract postconditions on the
 real comparison methods are the monitor; an explicit oracle cross-checks every pair."""
 import itertools
+import json
 import operator
 import random
 
@@ -189,7 +190,73 @@ def _main(rep, tier):
                     except Exception as e:
                         rep.fail("%s ordering against unrelated raises non-TypeError" % sname, {"op": name, "error": repr(e)})
     # Range/Location have no ordering among themselves either (unrelated to any order)
+    # instances of user subclasses are still Ranges / Locations / Positions: equal components -> equal
+    class MyRange(R):
+        pass
+
+    class MyLocation(L):
+        pass
+
+    class MyPosition(P):
+        pass
+
+    n_sub = 0
+    for (s1, e1) in rngs[:8]:
+        a, b = R(P(*s1), P(*e1)), MyRange(P(*s1), P(*e1))
+        c = MyRange(MyPosition(*s1), P(*e1))
+        n_sub += 3
+        try:
+            if (a == b) is not True or (b == a) is not True or (a != b) is not False or (a == c) is not True:
+                rep.fail("Range equality is not structural for an instance of a subclass", {"start": s1, "end": e1})
+            la, lb = L("file:///a", a), MyLocation("file:///a", b)
+            if (la == lb) is not True or (lb == la) is not True or (L("file:///a", b) == la) is not True:
+                rep.fail("Location equality is not structural for an instance of a subclass", {"start": s1, "end": e1})
+            if (MyPosition(*s1) == P(*s1)) is not True or (P(*s1) == MyPosition(*s1)) is not True:
+                rep.fail("Position equality is not structural for an instance of a subclass", {"position": s1})
+        except PostBroken as e:
+            rep.fail("contract|comparison-disagrees-with-tuple", {"error": str(e)[-200:]})
+    # the same properties in an optimised interpreter (`python -O`: asserts and `if __debug__` vanish)
+    import subprocess as _sp
+
+    probe = (
+        "import sys; sys.path.insert(0, %r)\n"
+        "import operator, json\n"
+        "from lsprotocol.types import Position as P, Range as R, Location as L\n"
+        "bad = []\n"
+        "p, rg = P(1, 2), R(P(1, 2), P(3, 4)); loc = L('u', rg)\n"
+        "class LA:\n    line = 1; character = 2\n"
+        "for subj in (p, rg, loc):\n"
+        "    for o in (None, (1, 2), 12, 'x', LA(), rg if subj is p else p):\n"
+        "        if (subj == o) is not False or (subj != o) is not True: bad.append(['eq', repr(subj), repr(o)])\n"
+        "        for f in (operator.lt, operator.le, operator.gt, operator.ge):\n"
+        "            for x, y in ((subj, o), (o, subj)):\n"
+        "                try:\n                    f(x, y); bad.append(['order-no-raise', f.__name__, repr(x), repr(y)])\n"
+        "                except TypeError: pass\n"
+        "                except Exception as e: bad.append(['order-raises-' + type(e).__name__, f.__name__, repr(x), repr(y)])\n"
+        "grid = [0, 1, 2**31 - 1]\n"
+        "for a in [(x, y) for x in grid for y in grid]:\n"
+        "    for b in [(x, y) for x in grid for y in grid]:\n"
+        "        for f in (operator.lt, operator.le, operator.eq, operator.ne, operator.ge, operator.gt):\n"
+        "            if f(P(*a), P(*b)) is not f(a, b): bad.append(['op', f.__name__, a, b])\n"
+        "print(json.dumps({'optimised': sys.flags.optimize, 'bad': bad[:10], 'n': len(bad)}))\n" % ctx.pkg_root()
+    )
+    for flags in (["-O"], ["-OO"]):
+        pr = _sp.run([common.PY] + flags + ["-c", probe], capture_output=True, text=True, timeout=300)
+        n_sub += 1
+        try:
+            d = json.loads(pr.stdout.strip().splitlines()[-1])
+            if not d["optimised"]:
+                rep.inconc("optimised probe did not run optimised")
+            if d["n"]:
+                rep.fail("comparison semantics differ in an optimised interpreter (%s)|%s" % (flags[0], d["bad"][0][0]), {"flags": flags, "failures": d["bad"]})
+        except Exception:
+            rep.fail("comparison probe dies in an optimised interpreter (%s)" % flags[0], {"stderr": pr.stderr[-400:]})
     reprs = 0
+    lrepr = [("file:///x y", "file:///x y"), ("", ""), (":", ":"), ("a:b", "a:b"), (" ", " ")]
+    for u_, exp_ in lrepr:
+        reprs += 1
+        if repr(L(u_, R(P(1, 2), P(3, 4)))) != exp_ + ":1:2-3:4":
+            rep.fail("Location repr", {"uri": u_, "got": repr(L(u_, R(P(1, 2), P(3, 4))))})
     for a, b in [(0, 0), (3, 7), (2**31 - 1, 0)]:
         reprs += 1
         if repr(P(a, b)) != "%d:%d" % (a, b):
@@ -203,7 +270,8 @@ def _main(rep, tier):
     if have_ic and counters["contract_evals"] == 0:
         rep.inconc("contracts on Position.__eq__/__gt__ were never evaluated")
     cov = {
-        "evaluations": n_pairs + n_rl + n_unrel + reprs,
+        "evaluations": n_pairs + n_rl + n_unrel + reprs + n_sub,
+        "subclass_and_optimised_interpreter_probes": n_sub,
         "distinct_nontrivial": n_pairs - len(pts),
         "rule": "all 36x36 position pairs of the boundary grid (exhaustive) + seeded random pairs biased to equal lines / neighbours; every pair judged on six operators and trichotomy against tuple comparison; non-trivial = the two positions differ",
         "position_pairs": n_pairs,
